@@ -112,16 +112,29 @@ class Scope(FortranObj):
         errors: list[Diagnostic] = []
         known_types: dict[str, FortranObj] = {}
 
+        def line_in_file(child):
+            """Line (1-based) of a child in the file of this scope: entities
+            grafted by INCLUDE live at the line of the INCLUDE statement"""
+            if child.file_ast is self.file_ast:
+                return child.sline
+            for inc in self.file_ast.include_statements:
+                if any(child is obj for obj in inc.scope_objs):
+                    return inc.line_number
+            return None
+
         for child in self.children:
             # Skip masking/double checks for interfaces
             if child.get_type() == INTERFACE_TYPE_ID:
                 continue
+            child_line = line_in_file(child)
+            if child_line is None:
+                continue
             # Check other variables in current scope
             if child.FQSN in fqsn_dict:
-                if child.sline < fqsn_dict[child.FQSN]:
-                    fqsn_dict[child.FQSN] = child.sline - 1
+                if child_line < fqsn_dict[child.FQSN]:
+                    fqsn_dict[child.FQSN] = child_line - 1
             else:
-                fqsn_dict[child.FQSN] = child.sline - 1
+                fqsn_dict[child.FQSN] = child_line - 1
 
         contains_line = -1
         if self.get_type() in (
@@ -143,19 +156,24 @@ class Scope(FortranObj):
         for child in self.children:
             if child.name.startswith("#"):
                 continue
-            line_number = child.sline - 1
+            child_line = line_in_file(child)
+            if child_line is None:
+                continue
+            line_number = child_line - 1
             # Check for type definition in scope
             def_error, known_types = child.check_definition(
                 obj_tree, known_types=known_types, interface=is_interface
             )
             if def_error is not None:
+                if child.file_ast is not self.file_ast:
+                    def_error.sline = line_number
                 errors.append(def_error)
             # Detect contains errors
             # NOTE: a procedure on the CONTAINS line itself (`contains; subroutine s`)
             # can only follow the CONTAINS statement
             if (
-                contains_line > child.sline
-                or (self.contains_start is None and contains_line == child.sline)
+                contains_line > child_line
+                or (self.contains_start is None and contains_line == child_line)
             ) and child.get_type(no_link=True) in (
                 SUBROUTINE_TYPE_ID,
                 FUNCTION_TYPE_ID,
